@@ -27,6 +27,11 @@ CLAIMED = {
    "DESIGN.md §6 C03",
    "Lean kernel; axioms propext/Classical.choice/Quot.sound only; hand-written model tied by correspondence; byte-level matching modelled at character level; hook H1 trusted to print the state faithfully.",
    "Lean 4 model of ParserState + invariant proofs + snapshot correspondence on random call trees (hook H1), memchr on/off"),
+ "C04": ("other",
+   "Lean 4 model of PairsBuilder::push_node and of the index-window views (Pairs, Pair, FlatPairs, Tokens, Pairs::single) and renderers (Display, alternate Display, Debug, JSON), every queue index / unreachable!/usize subtraction an explicit panic outcome; specification = list operations on the forest itself; theorems stated and being proved (build_encodes, pairs_new, pairs_next/nextBack, pairs_interleave, flat_interleave, tokens_interleave, pair_views, pairs_strings, pairs_render); tied to the code by correspondence on random forests x random interleaved view scripts (pretty-print build, JSON parsed back), with the forest-based oracle also evaluated on the implementation.",
+   "DESIGN.md §6 C04",
+   "Lean kernel; axioms propext/Classical.choice/Quot.sound only; hand-written model tied by correspondence; Debug/JSON escaping modelled for the generated alphabet.",
+   "Lean 4 model of the iterator windows + refinement to list operations on the forest + random-script correspondence with pest::iterators"),
 }
 REASON_TODO = "not claimed yet: machinery for this property is not built in the committed tree (planned in DESIGN.md §6); no check is registered rather than an unsound one"
 
